@@ -338,6 +338,7 @@ func (ex *Exec) choice(lo, hi int64) int64 {
 		alt := append(append([]Decision{}, ex.decs...), Decision{'c', uint64(v)})
 		ex.w.push(alt)
 	}
+	ex.w.stats.ChoiceForks += int(hi - lo)
 	ex.decs = append(ex.decs, Decision{'c', uint64(lo)})
 	ex.pos = len(ex.decs)
 	ex.prefix = ex.decs
